@@ -1323,5 +1323,8 @@ def gen_constraint_scenario(rng, prof=None, tier='quick'):
             stmts.append(['asm', k, [[f'${v:x}', [t_num(v)]]]])
         else:
             stmts.append(['asm', 'tst', []])
+    if rng.random() < 0.3:
+        # a muted region emits nothing, but what stands in it is still assembled and checked
+        stmts = [['mute']] + stmts + [['unmute'], ['asm', 'tst', []]]
     return {'cfg': cfg, 'isa': isa, 'isa_yaml': isa_yaml(isa, cfg), 'files': [{'name': 'main.asm', 'dir': 'src', 'stmts': stmts}],
             'include_dirs': [], 'extra_files': [], 'opts': {'start': base, 'end': None, 'fill': 0}}
